@@ -37,7 +37,7 @@ def required(tier):
 
 def gen_cases(seed, tier):
     rng = np.random.default_rng([seed, 2])
-    n = 420 if tier == 'quick' else 9000
+    n = 420 if tier == 'quick' else 15000
     cases = []
     for i in range(n):
         cfg = work_raw.gen_config(rng, tier, i=i)
